@@ -556,12 +556,37 @@ pub fn run_leg<W: World>(leg: &Leg, a: &CheckArgs) -> LegResult {
     lr.violation_signatures = by_sig.len() as u64;
     let replay_dir = format!("{}/replays", verif_root());
     let _ = std::fs::create_dir_all(&replay_dir);
+    // Report a diverse subset: within a (property, check) class prefer
+    // signatures whose primary site field (panic site / receiver / kind / path)
+    // has not been reported yet; at most 6 per class and 16 per leg.
+    let primary = |v: &Violation| -> String {
+        for k in ["panic_site", "path", "event", "kind", "receiver", "entry", "primitive"] {
+            if let Some(x) = v.site.get(k) {
+                return format!("{}={}", k, x);
+            }
+        }
+        String::new()
+    };
+    let mut order: Vec<&String> = Vec::new();
+    {
+        let mut seen: HashSet<String> = HashSet::new();
+        let mut rest: Vec<&String> = Vec::new();
+        for (sig, vr) in by_sig.iter() {
+            let key = format!("{}|{}|{}", vr.violation.property, vr.violation.check, primary(&vr.violation));
+            if seen.insert(key) {
+                order.push(sig);
+            } else {
+                rest.push(sig);
+            }
+        }
+        order.extend(rest);
+    }
     let mut reported_classes: BTreeMap<String, u32> = BTreeMap::new();
-    for (sig, vr) in by_sig.iter() {
-        // at most 3 replays per (property, check) class and 12 overall
+    for sig in order {
+        let vr = &by_sig[sig];
         let class = format!("{}|{}", vr.violation.property, vr.violation.check);
         let n = reported_classes.entry(class).or_insert(0);
-        if *n >= 3 || lr.violations.len() >= 12 {
+        if *n >= 6 || lr.violations.len() >= 16 {
             continue;
         }
         *n += 1;
